@@ -1,8 +1,10 @@
 #!/venv/bin/python
 """stores the confirmed round-8 seeds as /verif/seeded/Cxx-18, Cxx-19"""
 import json, os, shutil
-first = {"C09-2": "missed by every check", "C11-1": "missed by every check", "C13-2": "missed by every check", "C14-1": "missed by every check", "C18-1": "missed by every check",
-         "C11-2": "caught by C06 (LENGTH.exact) only", "C16-1": "caught by C15 (GETTERS.tabulated) only"}
+first = {"C01-2": "missed by every check", "C05-2": "missed by every check (LENGTH.tabulated outside its interpreter, the shape rules behind it without a verdict)", "C06-1": "missed by every check (RSDIFF.tabulated outside the MIR evaluator: div_euclid)",
+         "C06-2": "missed by every check", "C08-2": "missed by C08 (GETTERS.tabulated, which decides it, ran under C15 / C16 only and was outside its interpreter there)", "C11-2": "missed by every check (the funnel step gave up on a starred call)",
+         "C12-1": "missed by every check (UNIT.tabulated outside its interpreter)", "C13-2": "missed by every check", "C16-1": "missed by every check", "C18-2": "missed by every check",
+         "C19-2": "missed by every check (RANGE.tabulated outside its interpreter)", "C20-2": "missed by every check (TIME.tabulated outside its interpreter)", "C07-1": "caught by C01 / C02 / C11 / C13 / C17 (PARSE.tabulated) only"}
 n = 0
 for i in range(1, 21):
     p = f"C{i:02d}"
